@@ -30,15 +30,15 @@ type Chaos struct {
 }
 
 type Case struct {
-	Hot      int      `json:"hot"`  // keys 0..Hot-1 are rewritten by the clients
-	Cold     int      `json:"cold"` // keys Hot..Hot+Cold-1 are written once before the concurrent phase and then only read
-	MemLimit uint64   `json:"mem_limit"`
-	Ticker   bool     `json:"ticker,omitempty"`
-	Thresh   int      `json:"threshold"`
-	Procs    int      `json:"procs"`
-	Clients  [][]COp  `json:"clients"`
-	Chaos    []Chaos  `json:"chaos"`
-	DisjointKeys bool `json:"disjoint_keys,omitempty"` // C18: each client owns its keys (results must equal its own sequential model)
+	Hot          int     `json:"hot"`  // keys 0..Hot-1 are rewritten by the clients
+	Cold         int     `json:"cold"` // keys Hot..Hot+Cold-1 are written once before the concurrent phase and then only read
+	MemLimit     uint64  `json:"mem_limit"`
+	Ticker       bool    `json:"ticker,omitempty"`
+	Thresh       int     `json:"threshold"`
+	Procs        int     `json:"procs"`
+	Clients      [][]COp `json:"clients"`
+	Chaos        []Chaos `json:"chaos"`
+	DisjointKeys bool    `json:"disjoint_keys,omitempty"` // C18: each client owns its keys (results must equal its own sequential model)
 }
 
 func Gen() *rapid.Generator[Case] {
@@ -215,11 +215,11 @@ var model = porcupine.Model{
 
 // gate parks the flusher or the compactor inside the creation of its table.
 type gate struct {
-	mu      sync.Mutex
-	dir     string
-	park    string // "", "flush", "compact"
-	release chan struct{}
-	parked  int32
+	mu                   sync.Mutex
+	dir                  string
+	park                 string // "", "flush", "compact"
+	release              chan struct{}
+	parked               int32
 	flushes, compactions int32
 }
 
